@@ -1,5 +1,6 @@
 import DnpProofs.Lemmas.Align
 import DnpProofs.Lemmas.Store
+import DnpProofs.Lemmas.Consistent2
 set_option linter.unusedSectionVars false
 /-!
 # C01 — every produced data object is structurally consistent
@@ -92,6 +93,9 @@ theorem npReduce_consistent {d r : Data κ α} (n : String) (f : List α → α)
           simp only [Except.map, Except.ok.injEq, Sum.inl.injEq] at hr
           subst hr
           exact addHist_consistent (reduceDim_consistent f h hq) _ _
+  | tuple items =>
+    obtain ⟨_, _, _, _, hc, _⟩ := npReduce_tuple_spec n f h (by unfold npReduce; exact hr)
+    exact hc
 
 theorem npBinary_consistent {a b r : Data κ α} (n : String) (f : α → α → α) (ha : a.Consistent)
     (hb : b.Consistent) (hr : npBinaryData n f a b = .ok r) : r.Consistent := by
